@@ -47,6 +47,34 @@ fn main() {
         println!("{}", j.to_string());
         return;
     }
+    if let Some(dir) = arg(&args, "--dump-corpus") {
+        // seed corpus for the coverage-guided workload: the G-wire corpus, valid messages and
+        // hostile mutations, one file each
+        let seed: u64 = arg(&args, "--seed").map(|s| s.parse().expect("seed")).unwrap_or(1);
+        let mut r = Rng::new(seed ^ 0xc0ffee);
+        let mut n = 0;
+        let mut put = |b: &[u8]| {
+            let _ = std::fs::write(format!("{}/seed-{:05}", dir, n), b);
+            n += 1;
+        };
+        for w in vp_harness::gen::wire::corpus(&mut r) {
+            put(&w.bytes);
+        }
+        for _ in 0..300 {
+            let w = vp_harness::gen::wire::valid_message(&mut r);
+            if w.bytes.len() <= 512 {
+                put(&w.bytes);
+            }
+        }
+        for _ in 0..300 {
+            let (b, _) = vp_harness::gen::wire::hostile(&mut r);
+            if b.len() <= 512 {
+                put(&b);
+            }
+        }
+        println!("{}", n);
+        return;
+    }
     let prop_id = arg(&args, "--prop").expect("--prop");
     let tier = Tier::parse(&arg(&args, "--tier").unwrap_or("quick".into())).expect("tier");
     let seed: u64 = arg(&args, "--seed").map(|s| s.parse().expect("seed")).unwrap_or(1);
